@@ -36,6 +36,15 @@ func checkRuneErrorWithWidth(c *Ctx, r *Rec, rule, role string) {
 					call, _ = ast.Unparen(s.Values[0]).(*ast.CallExpr)
 				}
 			}
+			// `for _, r := range text`: an invalid byte and the character U+FFFD itself both come
+			// out as utf8.RuneError, and the loop has no width to tell them apart
+			if rs, ok := x.(*ast.RangeStmt); ok && rs.Value != nil {
+				if t := info.TypeOf(rs.X); t != nil && isStringType(t) {
+					if o := identObj(info, rs.Value); o != nil {
+						widthless[o] = rs
+					}
+				}
+			}
 			if call == nil {
 				return true
 			}
@@ -78,7 +87,11 @@ func checkRuneErrorWithWidth(c *Ctx, r *Rec, rule, role string) {
 			if o := identObj(info, other); o != nil {
 				if call, ok := widthless[o]; ok {
 					bad++
-					r.fail(rule, c.fdName(fd)+"/"+exprStr(be), c.pos(be.Pos()), fmt.Sprintf("%s is compared with utf8.RuneError although the width that %s returned with it was thrown away: RuneError is also the valid character U+FFFD (width 3); only (RuneError, 1) is a malformed encoding, so a text that holds U+FFFD is taken for an error", o.Name(), exprStr(call.(*ast.CallExpr).Fun)))
+					from := "the range loop"
+					if ce, isCall := call.(*ast.CallExpr); isCall {
+						from = exprStr(ce.Fun)
+					}
+					r.fail(rule, c.fdName(fd)+"/"+exprStr(be), c.pos(be.Pos()), fmt.Sprintf("%s is compared with utf8.RuneError although the width that %s had for it is not looked at: RuneError is also the valid character U+FFFD (width 3); only (RuneError, 1) is a malformed encoding, so a text that holds U+FFFD is taken for an error", o.Name(), from))
 				}
 			}
 			return true
